@@ -57,6 +57,9 @@ CHECKS = {
  'C18': dict(level='exploration', technique="runtime monitor: INDENT/DEDENT event trace of the real post-lexer vs CPython's tokenize on the same text, vs a stack model on synthetic token streams; balance contract; stream-sequence (reuse) oracle",
              text="Generated python-like texts (mixed spaces/tabs, blank/comment lines, bracketed continuation lines, multi-level and non-matching dedents) are lexed with lark's python grammar + PythonIndenter and the INDENT/DEDENT/logical-line event sequence (and DedentError) must equal CPython's tokenizer's; synthetic token streams with own bracket types and tab_len 1-8 are compared with a stack model written from the statement; INDENT/DEDENT must balance at the end of every complete stream; after failed or abandoned streams the same Indenter object must behave like a fresh one.",
              note='Leading tabs are rewritten to tab_len spaces before CPython sees the text. Two separate input classes carry finding F-C18-1.', ref='4 C18'),
+ 'C19': dict(level='exploration', technique='round-trip runtime monitor: parse -> Reconstructor.reconstruct -> parse on generated grammars whose membership in the supported class is verified by a reference LALR(1) and syntactic checks',
+             text='Grammars are generated with every shaping feature, whitespace ignored and maybe_placeholders=False; each is admitted only if the reference LALR(1) of its compiled rules is conflict-free (hence unambiguous), it has no useless rules, filtered terminals are strings and every compiled alternative keeps an unfiltered symbol other than its own rule. For every sampled sentence and both parser types the reconstructed text must be accepted and parse to an equal tree, without exception.',
+             note='Known findings: F-C19-1 (templates), F-C19-2 (?-rule handling of the tree matcher; classified differentially: the same round trip succeeds without the ? modifiers), F-C19-3 (?start returning its child).', ref='4 C19'),
  'C20': dict(level='exploration', technique='differential runtime monitor: forest transformers/visitors vs reference derivation enumeration; step budget + on_cycle observation on cyclic forests',
              text="For every accepted input the SPPF returned under ambiguity='forest' is walked by TreeForestTransformer (both modes), a counting ForestTransformer and a ForestVisitor; results are compared with the reference enumeration over the compiled rules (acyclic) or validated under a step budget with on_cycle observed (cyclic).",
              note='Trusts reference enumerator over Lark.rules (the forest names helper rules).', ref='4 C20'),
